@@ -289,8 +289,10 @@ class Run:
         cov.update(self.extra)
         ev = dict(property_id=self.prop, tier=self.tier, seed=self.seed, level=self.level, coverage=_jsonable(cov),
                   assumptions=sorted(self.trusted) + list(self.assumptions), wall_s=round(time.time() - self.t0, 2), violations=len(self.violations))
-        os.makedirs(os.path.join(VERIF, 'evidence'), exist_ok=True)
-        json.dump(ev, open(os.path.join(VERIF, 'evidence', '%s.json' % self.prop), 'w'), indent=1)
+        # trial runs against a deliberately modified tree (tools/tryseed.sh, tools/allseeds.sh) must not replace the evidence of the real tree
+        if not os.environ.get('VERIF_NO_EVIDENCE'):
+            os.makedirs(os.path.join(VERIF, 'evidence'), exist_ok=True)
+            json.dump(ev, open(os.path.join(VERIF, 'evidence', '%s.json' % self.prop), 'w'), indent=1)
         if self.broken:
             for b in self.broken:
                 print('CHECKER-BROKEN property=%s %s' % (self.prop, b[:2000]))
